@@ -318,6 +318,49 @@ PROPS['C12'] = dict(
 )
 
 
+# ---------------------------------------------------------------- C14, C15, C17 (h_misc)
+PROPS['C14'] = dict(
+    level_text='Exploration against a quadrature oracle: the convolution integral of the ORIGINAL table (long-double reference evaluation) with the unit-area kernel B-spline is integrated '
+               'piecewise between all breakpoints with 8-point Gauss-Legendre (exact for the polynomial degrees involved) and compared with the evaluated convolved table at points across '
+               'the new knot range incl. knots and margins; plus exact checks of the new order, the new knot vector (sorted pairwise sums), untouched other dimensions, well-formedness and the C wrapper.',
+    level_note=NOTE_COMMON + '; bound K=400 on |lib-integral|/(2^-24 M) fixed from the measured error distribution (see errratio counters)',
+    technique='runtime monitor: quadrature oracle for the convolution integral + structural invariants, under ASan/UBSan',
+    targets=[T('h_misc.cpp', 'asan'), T('h_misc.cpp', 'prod')],
+    passes=lambda tier, sc: [Pass('asan', 'h_misc.asan', 'C14', n(tier, 120, 1500, sc), stall_s=300),
+                             Pass('prod', 'h_misc.prod', 'C14', n(tier, 200, 3000, sc), stall_s=300)],
+    level='exploration',
+    rule='case = (table of 1-4 dims, order 0-5 in the convolved dimension, any dimension index, irregular knots, kernel of 2-6 increasing knots, symmetric or not, 0.05x-5x the knot spacing) x 10-60 points; '
+         'distinct_nontrivial counts distinct (table, kernel, point) triples with M>0',
+    assumptions=ASSUME_COMMON,
+    require={'any': {'points-checked': 1500, 'C-wrapper-comparisons': 100, 'order:0': 5, 'order:5': 5}},
+)
+PROPS['C15'] = dict(
+    level_text='Exhaustive over all 153 permutations of 1-5 dimensions (plus sampled 6-d ones) on tables whose axes have pairwise different lengths, orders, extents and periods: every per-dimension attribute, '
+               'exact relocation of every coefficient, stride consistency, evaluation at permuted points against the reference, restoration by the inverse permutation, rejection of every malformed-argument shape '
+               'with the table unchanged, and the C wrapper.',
+    level_note=NOTE_COMMON,
+    technique='runtime monitor: exhaustive permutation enumeration (<=5 dims) with exact relocation oracle, under ASan/UBSan',
+    targets=[T('h_misc.cpp', 'asan')],
+    passes=lambda tier, sc: [Pass('asan', 'h_misc.asan', 'C15', 153 + n(tier, 60, 600, sc), stall_s=300)],
+    level='exploration',
+    rule='case = one permutation (cases 0..152 enumerate all permutations of 1..5 dimensions, the rest are random 6-d permutations) applied to a fresh table; distinct_nontrivial counts distinct permutations',
+    assumptions=ASSUME_COMMON,
+    require={'any': {'permutations': 153, 'inverse-checks': 153, 'malformed-arguments-tried': 800, 'C-wrapper-comparisons': 153}},
+)
+PROPS['C17'] = dict(
+    level_text='Exploration: grid evaluation of sparse-coefficient tables (50-95% exact zeros, whole zero edge hyperplanes) on arbitrary grids (unsorted, repeated, outside, on-knot, single-point axes) compared entry by entry '
+               'with pointwise evaluation and with the long-double reference (so a disagreement is attributed to the side that is wrong); index ranges, index bounds, duplicates and unlisted points are checked; C wrapper compared bitwise.',
+    level_note=NOTE_COMMON,
+    technique='runtime differential monitor (grid vs pointwise vs reference), under ASan/UBSan',
+    targets=[T('h_misc.cpp', 'asan')],
+    passes=lambda tier, sc: [Pass('asan', 'h_misc.asan', 'C17', n(tier, 900, 9000, sc), stall_s=300)],
+    level='exploration',
+    rule='case = (sparse table of 1-4 dims with mixed orders 0-4 and repeated knots, grid) ; every grid point strictly inside the knot range is judged; distinct_nontrivial counts distinct (table, grid point) pairs judged',
+    assumptions=ASSUME_COMMON,
+    require={'any': {'grid-points-checked': 3000, 'grid-points-unlisted': 100, 'tables-with-zero-edge-hyperplanes': 50, 'C-wrapper-comparisons': 200}},
+)
+
+
 def all_targets():
     seen, out = set(), []
     for p in PROPS.values():
